@@ -18,6 +18,8 @@ type Req struct {
 	URI     string      `json:"uri"`
 	Headers [][2]string `json:"headers,omitempty"`
 	Body    string      `json:"body,omitempty"`
+	// PreArgs are handed to AddGetRequestArgument before ProcessURI (connectors may do that)
+	PreArgs [][2]string `json:"pre_args,omitempty"`
 	// response side (Status 0 = stop after the request phases + logging)
 	Status      int         `json:"status,omitempty"`
 	RespHeaders [][2]string `json:"resp_headers,omitempty"`
@@ -102,6 +104,9 @@ func Drive(tx types.Transaction, r Req, o *probe.Outcome) {
 		}
 	}
 	tx.ProcessConnection("10.0.0.1", 1234, "10.0.0.2", 80)
+	for _, a := range r.PreArgs {
+		tx.AddGetRequestArgument(a[0], a[1])
+	}
 	tx.ProcessURI(r.URI, method, "HTTP/1.1")
 	for _, h := range r.Headers {
 		tx.AddRequestHeader(h[0], h[1])
